@@ -120,6 +120,11 @@ def run_one(tape: Any, cfg: Dict[str, Any], forbid: FrozenSet[str] = frozenset()
         if any(c in data_ends for c in cuts):
             g.note('cut_data_crlf')
             probe('cut_data_crlf')
+        # a cut strictly inside a chunk-size line (between the previous boundary and the end of the size line)
+        size_ends = marks[0::3]
+        prev_ends = [0 if kind == 'chunkparser' else exp.get('head_len', 0)] + marks[2::3]
+        if any(a < c < b for c in cuts for a, b in zip(prev_ends, size_ends)):
+            probe('cut_in_size_line')
     ps = pieces(data, cuts)
     if len(ps) == len(data) and len(data) > 1:
         probe('bytewise')
